@@ -941,10 +941,10 @@ Proof.
   { apply (pinv_transfer_core w1 _ lp PW1).
     - reflexivity.
     - unfold w2, fr_trunc_tail. simpl. eapply fok_mono; [|apply (p_fr _ _ PW1)]. apply (p_st _ _ PW1).
-    - unfold w2, fr_trunc_tail. simpl. rewrite H1, D1. lia.
+    - unfold w2, fr_trunc_tail. simpl. rewrite ?H1, ?D1. simpl. lia.
     - unfold w2, fr_trunc_tail. simpl. lia.
-    - unfold w2, fr_trunc_tail. simpl. rewrite T1. lia.
-    - unfold w2, fr_trunc_tail. simpl. rewrite D1. lia.
+    - unfold w2, fr_trunc_tail. simpl. rewrite ?T1. simpl. lia.
+    - unfold w2, fr_trunc_tail. simpl. rewrite ?D1. simpl. lia.
     - intros j Hj. apply (jok_transfer w1).
       + apply (p_js _ _ PW1). exact Hj.
       + reflexivity.
@@ -956,6 +956,169 @@ Proof.
   exists [(EV_APPEND, w1); (EV_TRUNC_TAIL, w2)], w2, false. split; [reflexivity|].
   split; [intros e [<-|[<-|[]]]; [exact PW1|exact PW2]|]. split; [exact PW2|].
   unfold w2, fr_trunc_tail, w1, fr_append. simpl. repeat split; try lia.
+Qed.
+
+Lemma pinv_ids w m lp : PInv w lp -> PInv (set_ids w m) lp.
+Proof.
+  intros [P1 P2 P3 P4 P5 P6 P7 P8 P9 P10 P11].
+  constructor; [exact P1|exact P2|exact P3|exact P4|exact P5|exact P6|exact P7|exact P8|exact P9
+               |exact P10|].
+  intros j Hj. apply (jok_transfer w);
+    [apply P11; exact Hj|reflexivity|reflexivity|reflexivity|reflexivity|apply N.le_refl|apply N.le_refl].
+Qed.
+
+Lemma pinv_dk w o' lp :
+  PInv w lp -> pflat o' = pflat (w_dk w) -> pid o' = pid (w_dk w) -> PInv (set_dk w o') lp.
+Proof.
+  intros P E1 E2. assert (P' := P). destruct P' as [P1 P2 P3 P4 P5 P6 P7 P8 P9 P10 P11].
+  apply (pinv_transfer_core w _ lp P).
+  - unfold kv_core. simpl. rewrite E1, E2. reflexivity.
+  - exact P5.
+  - exact P6.
+  - exact P7.
+  - exact P8.
+  - exact P9.
+  - intros j Hj. apply (jok_transfer w);
+      [apply P11; exact Hj|reflexivity|exact E1|exact E2|reflexivity|apply N.le_refl|apply N.le_refl].
+Qed.
+
+(* diskLayer.commit: the state history is written BEFORE the state, the persistent
+   state id travels in the same batch as the state, and the freezer is synced before
+   that batch: at every crash point of the merge of one diff layer (append, optional
+   tail truncation, root->id Puts, optional sync + state batch) the persistent part
+   satisfies PInv -- for the old persisted chain before the batch, for the new one after.
+   The premise on the journals is the caller's freshness obligation: the new state root
+   is not the persisted root any stored journal was written for. *)
+Theorem disk_commit_events_pinv w l lp d force :
+  LInv w l lp -> d_id d = len l + 1 -> d_root d = t_root (d_tr d) ->
+  wf_tr (sem_rev l) (d_tr d) ->
+  (forall j, In (Some j) (slots w) -> j_proot j <> d_root d) ->
+  exists evs w', disk_commit w d force = (evs, Done w') /\
+    (forall e, In e evs -> PInv (snd e) lp \/ PInv (snd e) (d_tr d :: l)).
+Proof.
+  intros LI Hid Hroot W FR.
+  destruct (write_history_pinv w l lp d LI Hid)
+    as [evs1 [w1 [fl [Hwh [Pev1 [PW1 [KC [Edk [Eids [Ediffs [Ero [Ecfg [Hhead [Hst Hdata]]]]]]]]]]]]]].
+  destruct LI as [L1 L2 L3 L4 L5 L6 L7].
+  unfold disk_commit. rewrite Hwh.
+  set (o := w_dk w1).
+  set (w2a := if disk_id o =? 0 then set_ids w1 (updN (w_ids w1) (disk_root o) (Some 0)) else w1).
+  set (e2a := if disk_id o =? 0 then [(EV_PUT_ID, w2a)] else []).
+  set (w2 := set_ids w2a (updN (w_ids w2a) (d_root d) (Some (d_id d)))).
+  assert (PW2a : PInv w2a lp).
+  { unfold w2a. destruct (disk_id o =? 0); [apply pinv_ids|]; exact PW1. }
+  assert (PW2 : PInv w2 lp) by (apply pinv_ids; exact PW2a).
+  assert (Pe2 : forall e, In e (e2a ++ [(EV_PUT_ID, w2)]) -> PInv (snd e) lp).
+  { intros e He. apply in_app_iff in He. destruct He as [He|[<-|[]]]; [|exact PW2].
+    unfold e2a in He. destruct (disk_id o =? 0); [destruct He as [<-|[]]; exact PW2a|destruct He]. }
+  set (o1 := mkDisk (disk_root o) (disk_id o) (buf_layers o + 1)
+                    (merge_changes (buf o) (t_changes (d_tr d))) (pflat o) (pid o)).
+  assert (D : DInv 0 l o) by (unfold o; rewrite Edk; exact L1).
+  destruct (jc_full (w_cfg w) || force || fl).
+  - (* flush *)
+    replace (pid o1 + buf_layers o1 =? d_id d) with true.
+    2:{ symmetry. apply N.eqb_eq. simpl. rewrite Hid, <- (i_id _ _ _ D), <- (i_pid _ _ _ D). lia. }
+    cbn [negb].
+    set (w3 := fr_sync (set_dk w2 o1)).
+    set (w4 := set_state w3 (mkDisk (d_root d) (d_id d) 0 empty_buf (eff o1) (d_id d)) (d_root d)).
+    assert (W2dk : w_dk w2 = o).
+    { unfold w2, w2a, o. destruct (disk_id (w_dk w1) =? 0); reflexivity. }
+    assert (PW3 : PInv w3 lp).
+    { apply sync_pinv. apply pinv_dk; [exact PW2|rewrite W2dk; reflexivity|rewrite W2dk; reflexivity]. }
+    assert (W4fr : w_fr w4 = w_fr w1 /\ w_shead w4 = fr_head (w_fr w1) /\ w_stail w4 = fr_tail (w_fr w1) /\
+                   w_kvj w4 = w_kvj w1 /\ w_jlive w4 = w_jlive w1 /\ w_jdur w4 = w_jdur w1 /\
+                   w_jfile w4 = w_jfile w1).
+    { unfold w4, w3, w2, w2a. destruct (disk_id o =? 0); simpl; repeat split. }
+    destruct W4fr as [F1 [F2 [F3 [F4 [F5 [F6 F7]]]]]].
+    assert (KC' := KC). unfold kv_core in KC'. injection KC' as K1 K2 K3 K4 K5 K6 K7.
+    assert (PW4 : PInv w4 (d_tr d :: l)).
+    { constructor.
+      - simpl. split; [exact W|exact L2].
+      - simpl. exact Hroot.
+      - intro k. destruct (commit_disk_ok 0 l o d false D W Hid Hroot) as [o' [Eq DI]].
+        unfold commit_disk in Eq. simpl in Eq. injection Eq as <-.
+        exact (i_eff _ _ _ DI k).
+      - simpl. rewrite Hid, len_cons. reflexivity.
+      - rewrite F3, F1. unfold fok. simpl. split.
+        + intro Ht. rewrite Hdata. unfold updN.
+          replace (len (d_tr d :: l)) with (d_id d) by (rewrite Hid, len_cons; reflexivity).
+          rewrite N.eqb_refl. f_equal.
+          rewrite (mk_history_wf (sem_rev l) _ _ (d_tr d) W). f_equal.
+          * rewrite <- Edk. apply (i_root _ _ _ D).
+          * exact Hroot.
+        + fold (fok (fr_tail (w_fr w1)) (fr_data (w_fr w1)) l).
+          rewrite Hdata. apply fok_write; [lia|].
+          eapply fok_mono; [|exact L4]. assert (X := p_st _ _ PW1). lia.
+      - rewrite F2. simpl. lia.
+      - rewrite F2, F1. lia.
+      - rewrite F3, F1. lia.
+      - rewrite F1. simpl. assert (X := p_tl _ _ PW1). rewrite K3 in X.
+        assert (Y : pid (w_dk w) <= len l).
+        { rewrite <- (i_id _ _ _ L1), <- (i_pid _ _ _ L1). lia. }
+        lia.
+      - unfold slot_excl. rewrite F7, F4, F5, F6. exact (p_ex _ _ PW1).
+      - intros j Hj E1 _. exfalso. apply (FR j).
+        + unfold slots in *. rewrite F4, F5, F6, K4, K5, K6 in Hj. exact Hj.
+        + exact E1. }
+    eexists _, _. split; [reflexivity|].
+    intros e He. apply in_app_iff in He. destruct He as [He|He]; [left; apply Pev1; exact He|].
+    apply in_app_iff in He. destruct He as [He|He]; [left; apply Pe2; exact He|].
+    destruct He as [<-|[<-|[]]]; [left; exact PW3|right; exact PW4].
+  - eexists _, _. split; [reflexivity|].
+    intros e He. apply in_app_iff in He. destruct He as [He|He]; left; [apply Pev1|apply Pe2]; exact He.
+Qed.
+
+(* one operation ahead of any live database: every crash point of the merge of a diff
+   layer (Update / Commit flatten layers one by one with exactly these events) and of
+   Journal, under every cut, reopens into a consistent database *)
+Theorem commit_crash_consistent w l lp d force c :
+  LInv w l lp -> d_id d = len l + 1 -> d_root d = t_root (d_tr d) ->
+  wf_tr (sem_rev l) (d_tr d) ->
+  (forall j, In (Some j) (slots w) -> j_proot j <> d_root d) ->
+  exists evs w', disk_commit w d force = (evs, Done w') /\
+    forall e, In e evs ->
+      exists evs' w'' l' lp', open (crash c (snd e)) = (evs', Done w'') /\ Consistent w'' l' lp' /\
+                              LInv w'' l' lp'.
+Proof.
+  intros LI Hid Hroot W FR.
+  destruct (disk_commit_events_pinv w l lp d force LI Hid Hroot W FR) as [evs [w' [E P]]].
+  exists evs, w'. split; [exact E|]. intros e He.
+  destruct (P e He) as [Pe|Pe].
+  - destruct (crash_open_consistent _ _ c Pe) as [evs' [w'' [l' [O [C _]]]]].
+    exists evs', w'', l', lp. split; [exact O|]. split; [exact C|].
+    apply (open_linv (crash c (snd e)) lp evs' w'' l');
+      [apply crash_pinv; exact Pe|apply crash_settled|exact O|exact C].
+  - destruct (crash_open_consistent _ _ c Pe) as [evs' [w'' [l' [O [C _]]]]].
+    exists evs', w'', l', (d_tr d :: l). split; [exact O|]. split; [exact C|].
+    apply (open_linv (crash c (snd e)) (d_tr d :: l) evs' w'' l');
+      [apply crash_pinv; exact Pe|apply crash_settled|exact O|exact C].
+Qed.
+
+Theorem journal_crash_consistent w l lp c :
+  LInv w l lp -> w_ro w = false ->
+  forall e, In e (fst (journal_op w)) ->
+    exists evs' w'' l', open (crash c (snd e)) = (evs', Done w'') /\ Consistent w'' l' lp /\
+                        LInv w'' l' lp.
+Proof.
+  intros LI RO e He.
+  assert (Pe := journal_events_pinv w l lp LI RO e He).
+  destruct (crash_open_consistent _ _ c Pe) as [evs' [w'' [l' [O [C _]]]]].
+  exists evs', w'', l'. split; [exact O|]. split; [exact C|].
+  apply (open_linv (crash c (snd e)) lp evs' w'' l');
+    [apply crash_pinv; exact Pe|apply crash_settled|exact O|exact C].
+Qed.
+
+(* the empty database is live *)
+Lemma init_linv c jf : LInv (init_world c jf 0) [] [].
+Proof.
+  constructor.
+  - constructor; unfold bl, eff; simpl; auto; try lia; try (intros ? ? []).
+  - exact Logic.I.
+  - reflexivity.
+  - unfold fok. simpl. constructor.
+  - simpl. constructor.
+  - apply init_pinv.
+  - intros j [H|[H|[H|[]]]]; discriminate.
 Qed.
 
 (* REST *)
